@@ -54,6 +54,24 @@ def traded_bucket_reused(s):
     s.do(E("usr1", {"k": "withdraw_purchased", "id": 1}), "valid")
 
 
+def traded_bucket_royalty(s):
+    """C06 / C10: a proceeds bucket that still carries the fee of its first sale pays for a purchase that owes royalties on both
+    kinds of fungible: the old fee is flushed *and* every royalty is sent."""
+    reg(s, COLL1, 300, "usr5")
+    reg(s, COLL2, 100, "usr4")
+    listing(s, "usr0", 1, [["uatom", 7]], G(n=[["ujunox", 10000]], c=[[CW20A, 400]]))
+    bucket(s, "usr1", 1, [["ujunox", 10000]])
+    cw20_send(s, "usr1", CW20A, 400, {"k": "add_to_bucket_cw20", "id": 1})
+    buy(s, "usr1", 1, 1)                        # bucket 1 -> usr0: 9950 ujunox + 400 CW20A, fee 50 pending
+    nft_send(s, "usr2", COLL1, "3", {"k": "create_listing_cw721", "id": 2, "ask": G(n=[["ujunox", 9950]], c=[[CW20A, 400]]), "wl": None})
+    nft_send(s, "usr2", COLL2, "3", {"k": "add_to_listing_cw721", "id": 2})
+    s.do(E("usr2", {"k": "finalize", "id": 2, "secs": 600}), "valid")
+    with_faults(s, E("usr0", {"k": "buy", "lid": 2, "bid": 1}), "reuse")   # royalties 3 % + 1 % of both, old fee 50 to the pool, new fee 49
+    with_faults(s, E("usr2", {"k": "remove_bucket", "id": 1}))
+    s.do(E("usr0", {"k": "withdraw_purchased", "id": 2}), "valid")
+    s.do(E("usr1", {"k": "withdraw_purchased", "id": 1}), "valid")
+
+
 def traded_bucket_topped_up(s):
     listing(s, "usr0", 1, [["uusdcx", 5]], G(n=[["ujunox", 400], ["uatom", 3]]))
     bucket(s, "usr1", 1, [["ujunox", 400], ["uatom", 3]])
@@ -140,6 +158,12 @@ def same_id_two_owners(s):
     s.do({"t": "nft_send", "user": "usr1", "coll": COLL1, "token_id": "2", "inner": {"k": "create_bucket_cw721", "id": 6}}, "valid")  # refused
     bucket(s, "usr0", 7, [["uosmo", 9]])
     s.do({"t": "nft_send", "user": "usr1", "coll": COLL2, "token_id": "2", "inner": {"k": "create_bucket_cw721", "id": 7}}, "valid")  # refused
+    # the two id spaces are separate: listing ids 5, 6, 7 are fresh although buckets 5, 6, 7 exist (created by NFT hook, CW20 hook, coins)
+    listing(s, "usr3", 5, [["uatom", 1]], G(n=[["uosmo", 2]]), finalize=False)
+    cw20_send(s, "usr3", CW20A, 2, {"k": "create_listing_cw20", "id": 6, "ask": G(n=[["uosmo", 2]]), "wl": None})
+    nft_send(s, "usr3", COLL1, "4", {"k": "create_listing_cw721", "id": 7, "ask": G(n=[["uosmo", 2]]), "wl": None})
+    for i in (5, 6, 7):
+        s.do(E("usr3", {"k": "delete_listing", "id": i}), "valid")
     # usr1 sells for exactly what usr0's buckets hold; the buckets are re-keyed onto usr1
     listing(s, "usr1", 1, [["uatom", 11]], G(f=[[COLL1, "1"]]))
     listing(s, "usr1", 2, [["uatom", 12]], G(c=[[CW20A, 40]]))
@@ -316,6 +340,7 @@ def royalty_cap(s):
         nft_send(s, "usr0", c, "1", {"k": "add_to_listing_cw721", "id": 1})
     nft_send(s, "usr0", colls[18], "1", {"k": "add_to_listing_cw721", "id": 1})
     s.do({"t": "nft_transfer", "user": "usr3", "coll": colls[0], "token_id": "4", "to": "usr0"}, "valid")
+    nft_send(s, "usr0", colls[0], "4", {"k": "add_to_listing_cw721", "id": 1})     # a second NFT of the first collection, 17 NFTs later: counted once
     s.do(E("usr0", {"k": "finalize", "id": 1, "secs": 86400}), "valid")
     bucket(s, "usr1", 1, [["ujunox", 10000], ["uatom", 2]])
     with_faults(s, E("usr1", {"k": "buy", "lid": 1, "bid": 1}))        # exactly 50 %: allowed
@@ -514,9 +539,13 @@ def fee_cycle_week(s):
     s.do(E("usr3", {"k": "fee_cycle"}), "valid")     # twice in one block: refused
     s.do(E("usr7", {"k": "fee_cycle"}), "valid")
     buy(s, "usr1", 1, 1)                              # charged in USDC
+    adv(s, 3600, 0)
+    s.do(E("usr2", {"k": "fee_cycle"}), "valid")     # an hour after the switch, USDC in force: refused
+    adv(s, 300000, 0)
+    s.do(E("usr2", {"k": "fee_cycle"}), "valid")     # half a week after the switch: refused
     listing(s, "usr2", 2, [["ujunox", 1000], ["uusdcx", 1000]], G(n=[["ujunox", 2000], ["uusdcx", 2000]]), secs=1209600)
     bucket(s, "usr3", 2, [["uusdcx", 2000], ["ujunox", 2000]])
-    adv(s, 604801, 5)
+    adv(s, 604801 - 303600, 5)
     s.do(E("usr0", {"k": "fee_cycle"}), "valid")     # back to JUNO
     buy(s, "usr3", 2, 2)                              # charged in JUNO
     s.do(E("usr1", {"k": "fee_cycle"}), "valid")     # right after the second switch, same block: refused
@@ -672,6 +701,21 @@ def coins_on_every_message(s):
     s.do(E("usr1", {"k": "withdraw_purchased", "id": 1}), "valid")
     s.do(E("usr0", {"k": "remove_bucket", "id": 1}), "valid")
     s.do(E("usr2", {"k": "delete_listing", "id": 2}), "valid")
+    # a *contract* (a treasury, a DAO) that owns records of its own sends every non-deposit message kind with coins attached:
+    # refused like anybody else's; the same messages without coins go through
+    H = HOSTILE
+    s.do(E(H, {"k": "create_listing", "id": 20, "ask": ask, "wl": None}, [["uatom", 5]]), "hostile")
+    s.do(E(H, {"k": "change_ask", "id": 20, "ask": ask}, coins), "funds_on_nondeposit")
+    s.do(E(H, {"k": "finalize", "id": 20, "secs": 600}, coins), "funds_on_nondeposit")
+    s.do(E(H, {"k": "finalize", "id": 20, "secs": 600}), "hostile")
+    s.do(E(H, {"k": "create_bucket", "id": 21}, [["uosmo", 7]]), "hostile")
+    s.do(E(H, {"k": "remove_bucket", "id": 21}, coins), "funds_on_nondeposit")
+    s.do(E(H, {"k": "buy", "lid": 20, "bid": 21}, coins), "funds_on_nondeposit")
+    s.do(E(H, {"k": "buy", "lid": 20, "bid": 21}), "hostile")
+    s.do(E(H, {"k": "withdraw_purchased", "id": 20}, coins), "funds_on_nondeposit")
+    s.do(E(H, {"k": "withdraw_purchased", "id": 20}), "hostile")
+    s.do(E(H, {"k": "remove_bucket", "id": 21}), "hostile")
+    s.do(E(H, {"k": "fee_cycle"}, coins), "funds_on_nondeposit")
 
 
 def hostile_hooks(s):
@@ -760,6 +804,10 @@ def hook_edge_inputs(s):
     buy(s, "usr1", 77, 1)                                           # own bucket, a listing id that does not exist: refused
     buy(s, "usr1", 1, 1)                                            # listing 1 not finalized yet: refused
     s.do(E("usr0", {"k": "finalize", "id": 1, "secs": 600}), "valid")
+    bucket(s, "usr2", 3, [["uosmo", 7]])
+    buy(s, "usr2", 1, 3)                                            # the NFT-created listing is reserved for usr1: refused
+    s.do(E("usr0", {"k": "finalize", "id": 2, "secs": 600}), "valid")
+    buy(s, "usr2", 2, 3)                                            # so is the CW20-created one
     buy(s, "usr1", 1, 1)
 
 
@@ -1021,6 +1069,7 @@ SCRIPTS = {
     "hostile_freeze": (world.default_cfg, hostile_freeze, ("no_drain",)),
     "hostile_recreate": (world.default_cfg, hostile_recreate, ()),
     "hook_edge_inputs": (world.default_cfg, hook_edge_inputs, ()),
+    "traded_bucket_royalty": (world.default_cfg, traded_bucket_royalty, ()),
     "royalty_many_collections": (royalty_many_collections_cfg, royalty_many_collections, ("no_drain",)),
     "nft_duplicates_via_hook": (world.default_cfg, nft_duplicates_via_hook, ("no_drain",)),
     "fee_cycle_subsecond": (fee_cycle_subsecond_cfg, fee_cycle_subsecond, ()),
